@@ -28,7 +28,7 @@ THEOREMS = [
 TRUSTED = [
 	'Headers.append / pop and the element parsing of the Trailer field are the models of C08/C09 (tied there); zlib content codings are excluded (the property speaks of messages without a content coding)',
 ]
-ASSUMPTIONS = ['F6: an HTTP/1.0 message carrying Transfer-Encoding: chunked is framed by Content-Length and delivered still advertising chunked (recorded finding)']
+ASSUMPTIONS = ['F6: an HTTP/1.0 message carrying Transfer-Encoding: chunked is framed by Content-Length and delivered still advertising chunked (recorded finding)', 'a status raised by parse() ends the history: the state machine is not fed again after an error (DESIGN.md 6.2)']
 RULE = ('fed in one call, in halves, octet by octet and line by line (cut after each CRLF, and one octet into the next line); the full matrix Content-Length in {absent, correct, too small, too large, repeated, signed, non-numeric, spaced} x Transfer-Encoding in {absent, chunked in any letter case, unknown, list} x HTTP/1.0, 1.1 '
 	'x trailer sections with announced, unannounced, forbidden and repeated fields, for requests and responses, small bodies exhaustively; non-trivial = delivered; distinct by canonical outcome')
 
